@@ -1,6 +1,7 @@
-import CkcVerif.Generated.Consts
+import CkcVerif.Generated.Cards
 import CkcVerif.Generated.Graphs
 import CkcVerif.Model.Basic
+import CkcVerif.Model.Fields
 /-!
 # Card-level functions of `src/lib.rs`
 
@@ -25,11 +26,6 @@ def filter (w : Nat) : Nat := (Gen.filterPoints.lookup w).getD 0
 /-- `is_blank` -/
 def isBlank (w : Nat) : Bool := Gen.isBlankPoints.contains w
 
-def getRankFlag (w : Nat) : Nat := w &&& Gen.rankFlagFilter
-def getRankBit (w : Nat) : Nat := getRankFlag w >>> Gen.rankFlagShift
-def getRankPrime (w : Nat) : Nat := w &&& Gen.rankPrimeFilter
-def getSuitFlag (w : Nat) : Nat := w &&& Gen.suitFilter
-def getSuitBit (w : Nat) : Nat := getSuitFlag w >>> Gen.suitShift
 
 /-- index of a word in the rank-field graphs (the graphs were dumped at `m <<< 16`, m < 8192) -/
 def rankIdx (w : Nat) : Nat := (w &&& Gen.rankFlagFilter) >>> 16
@@ -59,10 +55,6 @@ def create (rank suit : Nat) : Nat :=
 /-- `Shifty for CKCNumber` -/
 def shiftSuit (w : Nat) : Nat := create (getCardRank w) (nextSuit w)
 
-def flagAsPair (w : Nat) : Nat := w ||| Gen.pairFlag
-def flagAsTrips (w : Nat) : Nat := w ||| Gen.tripsFlag
-def flagAsQuads (w : Nat) : Nat := w ||| Gen.quadsFlag
-def stripMultiplesFlags (w : Nat) : Nat := Gen.multiplesFilter &&& w
 
 /-- `CKCNumber::from_binary_card`: exact-match table on the dumped points, default blank -/
 def fromBinaryCard (x : Nat) : Nat := (Gen.fromBcPoints.lookup x).getD 0
